@@ -344,10 +344,14 @@ Section WithEnv.
   Definition go_prefix {A} (l : list A) (n : Z) : option (list A) :=
     if (n <? 0)%Z || (Z.of_nat (length l) <? n)%Z then None else Some (firstn (Z.to_nat n) l).
 
+  (** Go [int] is 64 bits here: [idx+1] wraps at MaxInt64 (the guard then passes and the index
+      expression faults instead). *)
+  Definition wrap_int64 (z : Z) : Z := ((z + 9223372036854775808) mod 18446744073709551616 - 9223372036854775808)%Z.
+
   (** RevertToSnapshot(idx). *)
   Definition revert (s : statedb) (idx : Z) : statedb * ret :=
     let len := Z.of_nat (length (sd_snaps s)) in
-    if (revert_guard_lhs idx len >? revert_guard_rhs idx len)%Z then (s, RPanic) else
+    if (wrap_int64 (revert_guard_lhs idx len) >? revert_guard_rhs idx len)%Z then (s, RPanic) else
     match go_index (sd_snaps s) (revert_index idx len) with
     | None => (s, RFault)
     | Some sn =>
@@ -364,7 +368,7 @@ Section WithEnv.
   (** DiscardSnapshot(idx). *)
   Definition discard (s : statedb) (idx : Z) : statedb * ret :=
     let len := Z.of_nat (length (sd_snaps s)) in
-    if (discard_guard_lhs idx len >? discard_guard_rhs idx len)%Z then (s, RPanic) else
+    if (wrap_int64 (discard_guard_lhs idx len) >? discard_guard_rhs idx len)%Z then (s, RPanic) else
     match go_prefix (sd_snaps s) (discard_keep idx len) with
     | None => (s, RFault)
     | Some keep => (mkSDB (sd_mem s) (sd_suicided s) (sd_logs s) (sd_refund s) keep (sd_err s), RUnit)
